@@ -973,19 +973,28 @@ impl<'a> HpoTerm<'a> {
     /// # Panics
     /// TODO    
     pub fn path_to_term(&self, other: &HpoTerm) -> Option<Vec<HpoTermId>> {
+        // The chain of parents between a term and its ancestor is only the
+        // shortest path if there is no shorter route via another common ancestor
+        let distance = self.distance_to_term(other);
         if other.parent_of(self) {
-            return self.path_to_ancestor(other);
+            let path = self.path_to_ancestor(other);
+            if path.as_ref().map(Vec::len) == distance {
+                return path;
+            }
         }
         if self.parent_of(other) {
-            return other.path_to_ancestor(self).map(|terms| {
-                terms
-                    .iter()
-                    .rev()
-                    .skip(1)
-                    .chain(std::iter::once(&other.id()))
-                    .copied()
-                    .collect()
-            });
+            let path = other.path_to_ancestor(self);
+            if path.as_ref().map(Vec::len) == distance {
+                return path.map(|terms| {
+                    terms
+                        .iter()
+                        .rev()
+                        .skip(1)
+                        .chain(std::iter::once(&other.id()))
+                        .copied()
+                        .collect()
+                });
+            }
         }
 
         self.all_common_ancestors(other)
